@@ -37,6 +37,8 @@ RULES = {
     "C08-H7": "the text attached to -113 is cut before every trailing terminator byte (CR and LF alike), so it does not depend on whether CR and LF arrived in the same call",
     "C08-H10": "the overrun refusal is decided from the pending unterminated data, not from the length of the chunk handed in (else the outcome depends on the partition)",
     "C08-H12": "the unit scan over the buffer ends only when the detector finds no further terminated message: no exit of that loop is decided from the length of the chunk handed in",
+    "C08-H13": "the message terminator is recognised from its own bytes: scpiLex_NewLine consumes [CR][LF] whatever follows (evaluated for the empty input, every single byte and every byte behind CR, behind LF and behind CR LF), so the verdict on a CR does not depend on whether the next byte has arrived",
+    "C08-H14": "every call scans the buffered text from its beginning: the offset at which the unit detector is first run is 0 (every definition of the offset outside the scan loop is the constant 0), so what is found does not depend on which bytes were already there before this call",
     "C08-H11": "every byte of the chunk is appended: the append copies (data, len) as received, neither is modified before it",
     "C08-H8": "the overrun refusal is exact: a chunk is refused only if position + len + 1 > buffer length (data that fits is never discarded)",
     "C08-H9": "definite-length block: once the '#', the digit count and all length digits have been read the block is either complete or incomplete (rest swallowed) - never rejected, whatever the announced length",
@@ -542,6 +544,102 @@ def rule_h12(ck, prog, S):
         ck.holds("C08-H12", st, K.loc(f, det[0]), "%d exit condition(s) of the scan loop, none computed from `%s`" % (nexits, lenp))
 
 
+def rule_h14(ck, prog, S):
+    f = prog.fn("SCPI_Input")
+    if f is None:
+        return
+    det = list(f.calls("scpiParser_detectProgramMessageUnit"))
+    loops_ = [(h, body) for h, body in C.loops(f) if any(f.where[c.id][0].id in body for c in det)]
+    if not det or not loops_:
+        return          # H12 reports the lost anchor
+    st = K.site(f, "scan-starts-at-buffer-start", 0)
+    body = set().union(*[b for _h, b in loops_])
+    a = C.call_args(det[0])
+    off = None
+    e1 = a[1].strip_all_casts()
+    if e1.k == "BinaryOperator" and e1.get("op") == "+":
+        for side in (e1.child(1), e1.child(0)):
+            sd = side.strip_all_casts()
+            if sd.k == "DeclRefExpr" and sd.get("decl", {}).get("kind") == "local":
+                off = sd.get("path")
+    if off is None:
+        if (e1.get("path") or "").endswith("buffer.data"):
+            ck.holds("C08-H14", st, K.loc(f, det[0]), "the detector is run on the buffer itself")
+        else:
+            ck.undecided("C08-H14", st, K.loc(f, det[0]), "the detector's start `%s` is not buffer + local offset" % a[1].src)
+        return
+    defs = []
+    for n_ in f.nodes.values():
+        if n_.k == "DeclStmt":
+            for d in n_.get("decls", []):
+                if d["name"] == off:
+                    defs.append((n_, f.nodes[d["init"]] if "init" in d else None, "decl"))
+    for n_, t in C.stores(f):
+        if t.get("path") == off:
+            defs.append((n_, n_.child(1) if n_.k == "BinaryOperator" and n_.get("op") == "=" else None, n_.get("op")))
+    outside = [(n_, v, op) for n_, v, op in defs if n_.id not in f.where or f.where[n_.id][0].id not in body]
+    bad = [(n_, v, op) for n_, v, op in outside if not (op in ("decl", "=") and v is not None and C.const_of(v) == 0)]
+    # a declaration without initialiser is fine when an assignment of 0 follows outside the loop
+    bad = [(n_, v, op) for n_, v, op in bad if not (op == "decl" and v is None and
+                                                  any(o2 == "=" and v2 is not None and C.const_of(v2) == 0 for _n2, v2, o2 in outside))]
+    if bad:
+        ck.violated("C08-H14", st, K.loc(f, bad[0][0]),
+                    "the scan offset `%s` is set by `%s` before the scan loop: the detector starts inside the buffered text, at a place "
+                    "computed from bytes of earlier calls (a `;` inside a string or block), so the same stream cut differently is "
+                    "split into different units" % (off, bad[0][0].src[:70]))
+    elif not outside:
+        ck.anchor_lost("C08-H14", "SCPI_Input: no definition of the scan offset `%s` outside the loop" % off)
+    else:
+        ck.holds("C08-H14", st, K.loc(f, det[0]), "`%s` is 0 when the scan loop is entered (%d definition(s) outside the loop)" % (off, len(outside)))
+
+
+def rule_h13(ck, prog):
+    from sa import interp as I
+    f = prog.fn("scpiLex_NewLine")
+    if f is None:
+        ck.anchor_lost("C08-H13", "scpiLex_NewLine")
+        return
+    ck.analysed(f)
+    st = K.site(f, "terminator-from-its-own-bytes", 0)
+    nl = prog.enumconst.get("SCPI_TOKEN_NL")
+    CR, LF = 13, 10
+    inputs = [b""]
+    for a in range(256):
+        inputs.append(bytes([a]))
+    for a in (CR, LF):
+        for b in range(256):
+            inputs.append(bytes([a, b]))
+    for b in range(256):
+        inputs.append(bytes([CR, LF, b]))
+    for x in (b"x\r", b"x\n", b"x\r\n", b"\n\r", b"\r\rx", b"\n\nx"):
+        inputs.append(x)
+    bad = None
+    n = 0
+    for data in inputs:
+        want = 0
+        if want < len(data) and data[want] == CR:
+            want += 1
+        if want < len(data) and data[want] == LF:
+            want += 1
+        try:
+            r, tok, used = I.lex_on(prog, f.name, data)
+        except I.Stuck as e:
+            ck.undecided("C08-H13", st, K.loc(f), "cannot evaluate scpiLex_NewLine on %r: %s" % (data, e))
+            return
+        n += 1
+        got_t = tok.get("type")
+        if (r, used) != (want, want) or (want > 0 and got_t != nl) or (want == 0 and got_t == nl):
+            bad = bad or (data, r, used, want)
+    if bad:
+        data, r, used, want = bad
+        ck.violated("C08-H13", st, K.loc(f),
+                    "on input %r the terminator recogniser consumes %s byte(s) (returns %s), [CR][LF] is %d: what counts as the end of the "
+                    "message depends on the bytes behind the terminator, i.e. on whether they arrived in the same call"
+                    % (data, used, r, want))
+    else:
+        ck.holds("C08-H13", st, K.loc(f), "%d inputs: consumes exactly [CR][LF], independent of what follows" % n)
+
+
 def rule_h11(ck, prog, S):
     """Every byte handed in is appended: the append copies exactly (data, len) as received.  Dropping or skipping bytes of
     the chunk before they reach the buffer (leading blanks while the buffer is empty, ...) makes the content of the
@@ -583,6 +681,8 @@ def run(ck, fb, tier):
         rule_h10(ck, prog, S)
         rule_h11(ck, prog, S)
         rule_h12(ck, prog, S)
+        rule_h13(ck, prog)
+        rule_h14(ck, prog, S)
         rule_h2_h6(ck, prog, S)
         # shared rules, recorded under this property's ids
         c09_h3(ck, prog)
